@@ -11,7 +11,24 @@ THEOREMS = ["C16_include_flattens", "C16_include_moved", "C16_fuel_monotone", "C
             "C16_comment_skipped_in_block", "C16_case_insensitive", "C16_opcode_lowered", "C16_scan_compositional",
             "C16_invisible_block", "C16_blank_lines", "C16_blank_lines_at_top", "C16_line_comment", "C16_line_comment_at_top",
             "C16_block_comment", "C16_block_comment_at_top", "C16_indentation_at_top", "C16_indentation",
-            "C16_line_replacement_partial"]
+            "C16_line_replacement", "C16_trailing_blanks", "C16_eol_comment", "C16_line_tail_at_top"]
+
+
+def instantiate(gen_q):
+    """Per-run: the two side conditions of the scanner theorems hold for the live lexicon."""
+    lx = "(mk_lexicon Run.GenLexicon.mnemonics Run.GenLexicon.mnemonics_without_operand Run.GenLexicon.keywords)"
+    text = (
+        "From A816 Require Import Model.Scanner Proofs.ScannerSpec Proofs.ScannerPos Proofs.ScannerTrailing1.\n"
+        "Require Import Run.GenLexicon.\n"
+        f"Definition live_lexicon16 := {lx}.\n"
+        "Lemma live_lexicon16_ok : lexicon_ok live_lexicon16 = true.\nProof. vm_compute. reflexivity. Qed.\n"
+        "Lemma live_lexicon16_tok : lexicon_tok live_lexicon16 = true.\nProof. vm_compute. reflexivity. Qed.\n"
+        "Definition C16_trailing_blanks_live_ok := fun file a x w b ta ea la t1 e1 l1 => "
+        "C16_trailing_blanks live_lexicon16 file a x w b ta ea la t1 e1 l1 live_lexicon16_ok live_lexicon16_tok.\n"
+        "Definition C16_eol_comment_live_ok := fun file a x w c b ta ea la t1 e1 l1 => "
+        "C16_eol_comment live_lexicon16 file a x w c b ta ea la t1 e1 l1 live_lexicon16_ok live_lexicon16_tok.\n"
+    )
+    return text, ["C16_trailing_blanks_live_ok", "C16_eol_comment_live_ok"]
 RULE = ("valid programs (generated + the repository's sample sources) x 6 random compositions of the listed presentation "
         "changes applied at every applicable position: blank lines, indentation (spaces/tabs), trailing spaces, full-line and "
         "end-of-line ';' comments, '/* */' comments between statements, spaces next to binary operators and commas and inside "
@@ -26,16 +43,17 @@ PROVED_NOTE = ("proved: an included file becomes a block that code generation fl
                "whole lines that scans to nothing significant can be inserted or removed without changing the significant "
                "tokens, later lines shift; closed forms with purely textual hypotheses for blank lines, full-line ';' comments "
                "(any text) and '/* */' comments (any text without the closing pair, multi-line included); indentation in front of "
-               "any line changes only the columns on that line (exact equation, errors included). "
-               "Correspondence-only (partial): trailing spaces / end-of-line comments / spaces inside operands (reduced by "
-               "C16_line_replacement_partial to a decidable fact on the changed lines, not proved in general) and the letter "
-               "case of mnemonics at the text level - metamorphic runs and the scanner model tie (SCAN).")
+               "any line changes only the columns on that line (exact equation, errors included); trailing blanks and an end-of-line "
+               "';' comment after ANY line are invisible (two-text simulation through every lexer; side condition: a blank "
+               "before the ';' or no bare mnemonic right before it; `lexicon_tok` discharged per run on the live lexicon). "
+               "Correspondence-only (partial): spaces inside operands (reducible by C16_line_replacement to a decidable "
+               "per-line fact) and the letter case of mnemonics at the text level - metamorphic runs and the scanner tie (SCAN).")
 MANIFEST = {
     "text": ("Coq theorems on include flattening, comment skipping and case folding in the parser / code-generation models; "
              "scanner layout-insensitivity is checked metamorphically: re-laid-out programs must give identical blocks, offsets "
              "and symbol values on the implementation, and the composed model must agree with the implementation on the "
              "re-laid-out text."),
-    "note": ("Partial: trailing blanks, end-of-line comments, spaces inside operands and mnemonic letter case at the text level are validated by metamorphic correspondence, not proved (comment lines, blank lines and indentation are proved). "
+    "note": ("Partial: spaces inside operands and mnemonic letter case at the text level are validated by metamorphic correspondence, not proved (comment lines, blank lines, indentation, trailing blanks and end-of-line comments are proved). "
              "Trusted: Coq kernel/vm_compute, harness. No axioms."),
     "technique": "Coq proof (include flattening, comment skip, case folding) + metamorphic layout twins + model correspondence",
 }
